@@ -3,6 +3,7 @@ NEXT Next
 CONSTANTS
  Len0 = 4
  MaxDepth = 2
+ TrackShiftLeft = FALSE
  TwoParts = FALSE
 INVARIANT C13_GroupAction
 INVARIANT C13_FeaturesFollow
